@@ -798,6 +798,77 @@ VALID = [("default", FAM_DEFAULT, "dx", 110, 400), ("for_else", FAM_FOR_ELSE, "d
 for (_nm, _fam, _envs, _q, _t) in VALID:
     CONDITIONS.append({"fn": _mk_valid(_nm, _fam, _envs), "quick": _q, "thorough": _t, "sel_only": True})
 
+# ---- the tag register changes between two analyses of one environment: each analysis reflects the register as it is ----
+from liquid.extra.tags import WithTag as _WithTag  # noqa: E402
+from liquid.builtin.tags.if_tag import IfTag as _IfTag  # noqa: E402
+
+
+class _BoxTag(_IfTag):
+    name = "box"
+    end = "endbox"
+
+
+_REG_SRC = ["{% with x: 1 %}{% if x %}{{ x }}{% endif %}{% endwith %}", "{% box x %}a{% endbox %}", "{% if x %}a{% endif %}{% unless x %}b{% endunless %}",
+            "{% with x: 1 %}{% box x %}{% endbox %}"]
+
+
+def registry_case(first, change, second, via_async):
+    env = Environment()
+
+    def analyse(src):
+        try:
+            if via_async:
+                from vf.hx import drive
+                from liquid import DictLoader
+                env.loader = DictLoader({"t": src})
+                a = drive(env.analyze_tags_async("t"))
+            else:
+                a = env.analyze_tags_from_string(src)
+        except Exception as e:
+            return ("raised", type(e).__name__)
+        return (sorted(a.unknown_tags), sorted(a.unclosed_tags), sorted(a.unexpected_tags))
+    if first >= 0:
+        analyse(_REG_SRC[first])
+    if change == 0:
+        env.add_tag(_WithTag)
+    elif change == 1:
+        env.add_tag(_BoxTag)
+    elif change == 2:
+        del env.tags["unless"]
+    elif change == 3:
+        env.add_tag(_WithTag)
+        env.add_tag(_BoxTag)
+    got = analyse(_REG_SRC[second])
+    # reference: the same analysis in an environment that was never analysed before the change
+    fresh = Environment()
+    if change in (0, 3):
+        fresh.add_tag(_WithTag)
+    if change in (1, 3):
+        fresh.add_tag(_BoxTag)
+    if change == 2:
+        del fresh.tags["unless"]
+    a = fresh.analyze_tags_from_string(_REG_SRC[second])
+    return got, (sorted(a.unknown_tags), sorted(a.unclosed_tags), sorted(a.unexpected_tags))
+
+
+def c21_registry_changes(first: int, change: int, second: int, via_async: bool) -> bool:
+    """
+    pre: -1 <= first <= 3 and 0 <= change <= 3 and 0 <= second <= 3
+    post: _
+    """
+    if excluded("c21_registry_changes", locals()):
+        return True
+    first, change, second, via_async = cint(first, -1, 3), cint(change, 0, 3), cint(second, 0, 3), cbool(via_async)
+    got, want = untraced(lambda: registry_case(first, change, second, via_async))
+    return finish(got == want)
+
+
+DETAIL["c21_registry_changes"] = lambda first, change, second, via_async: {
+    "analysed first": None if first < 0 else _REG_SRC[first], "then": ("add_tag(WithTag)", "add_tag(BoxTag)", "del tags['unless']", "add both")[change],
+    "then analysed": _REG_SRC[second], "(unknown, unclosed, unexpected) observed / in a fresh environment": registry_case(first, change, second, via_async)}
+CONDITIONS.append({"fn": "c21_registry_changes", "quick": 40, "thorough": 80, "sel_only": True})
+
+
 # ---- the shared corpus: every member parses in strict mode, so tag analysis reports nothing unclosed/unexpected/unknown ----
 from harness import corpus as _corpus  # noqa: E402
 
